@@ -268,3 +268,12 @@ def pre(x): return x
 
 def invariant_in(*a, **k): pass
 def hint_in(*a, **k): pass
+
+
+def set_keys(s):
+    """hash keys of the elements of a set (ghost view; insertion order in the model)"""
+    return tuple(x.serialize() if hasattr(x, 'serialize') else x for x in s)
+
+
+def seq_contains(t, x):
+    return x in tuple(t)
